@@ -22,7 +22,7 @@ def sealHdr (ty tid n : Nat) : Bytes := enc16 ty ++ enc16 n ++ cookieBytes ++ en
 
 theorem sealHdr_length (ty tid n : Nat) : (sealHdr ty tid n).length = 20 := header_length _ _ _
 
-def rawsBytes (ras : List RawAttr) : Bytes := ras.flatMap RawAttr.toBytes
+def rawsBytes_seal (ras : List RawAttr) : Bytes := ras.flatMap RawAttr.toBytes
 
 theorem setLen_sealHdr (ty tid n n' : Nat) (r : Bytes) :
     setLen (sealHdr ty tid n ++ r) n' = sealHdr ty tid n' ++ r := by
@@ -30,19 +30,19 @@ theorem setLen_sealHdr (ty tid n n' : Nat) (r : Bytes) :
 
 /-- the built bytes in terms of the raw attribute list -/
 theorem build_eq_seal (b : Builder) (hb : ∀ a ∈ b.attrs, a.Ok) :
-    b.build = sealHdr b.ty b.tid (b.byteLen - 20) ++ rawsBytes (b.attrs.map BAttr.asRaw) ∧
-    (rawsBytes (b.attrs.map BAttr.asRaw)).length = b.byteLen - 20 := by
-  have e : rawsBytes (b.attrs.map BAttr.asRaw) = b.attrs.flatMap (fun a => a.asRaw.toBytes) := by
-    unfold rawsBytes; rw [List.flatMap_map]
+    b.build = sealHdr b.ty b.tid (b.byteLen - 20) ++ rawsBytes_seal (b.attrs.map BAttr.asRaw) ∧
+    (rawsBytes_seal (b.attrs.map BAttr.asRaw)).length = b.byteLen - 20 := by
+  have e : rawsBytes_seal (b.attrs.map BAttr.asRaw) = b.attrs.flatMap (fun a => a.asRaw.toBytes) := by
+    unfold rawsBytes_seal; rw [List.flatMap_map]
   refine ⟨?_, ?_⟩
   · rw [e, builder_build b hb]; rfl
   · rw [e, flatMap_toBytes_length _ hb]; unfold Builder.byteLen sumPadded; omega
 
-theorem bytesWithExtraLen_eq (b : Builder) (hb : ∀ a ∈ b.attrs, a.Ok) (extra : Nat)
+theorem bytesWithExtraLen_eq_seal (b : Builder) (hb : ∀ a ∈ b.attrs, a.Ok) (extra : Nat)
     (hs : b.byteLen + extra ≤ 65535 + 20) (bytes : Bytes)
     (h : b.bytesWithExtraLen extra = some bytes) :
-    bytes = sealHdr b.ty b.tid ((rawsBytes (b.attrs.map BAttr.asRaw)).length + extra) ++
-      rawsBytes (b.attrs.map BAttr.asRaw) := by
+    bytes = sealHdr b.ty b.tid ((rawsBytes_seal (b.attrs.map BAttr.asRaw)).length + extra) ++
+      rawsBytes_seal (b.attrs.map BAttr.asRaw) := by
   obtain ⟨hbuild, hl⟩ := build_eq_seal b hb
   have h20 : 20 ≤ b.byteLen := by unfold Builder.byteLen; omega
   unfold Builder.bytesWithExtraLen at h
@@ -55,7 +55,7 @@ def SealedWith (H : Hashes) (c : Creds) (b : Builder) : Prop :=
   ∀ (pre : List RawAttr) (a : RawAttr) (post : List RawAttr) (algo : Algo),
     b.attrs.map BAttr.asRaw = pre ++ a :: post → a.ty = integrityTy algo →
     a.value = integrityMac H (hmacKey H c) algo
-      (sealHdr b.ty b.tid ((rawsBytes pre).length + integrityExtra algo) ++ rawsBytes pre)
+      (sealHdr b.ty b.tid ((rawsBytes_seal pre).length + integrityExtra algo) ++ rawsBytes_seal pre)
 
 theorem snoc_eq_split {α} (l : List α) (x : α) (pre : List α) (a : α) (post : List α)
     (h : l ++ [x] = pre ++ a :: post) :
@@ -78,8 +78,8 @@ theorem sealedWith_snoc (H : Hashes) (c : Creds) (b b' : Builder) (x : BAttr)
     (hs : SealedWith H c b)
     (hx : ∀ algo, x.asRaw.ty = integrityTy algo →
       x.asRaw.value = integrityMac H (hmacKey H c) algo
-        (sealHdr b.ty b.tid ((rawsBytes (b.attrs.map BAttr.asRaw)).length + integrityExtra algo) ++
-          rawsBytes (b.attrs.map BAttr.asRaw))) :
+        (sealHdr b.ty b.tid ((rawsBytes_seal (b.attrs.map BAttr.asRaw)).length + integrityExtra algo) ++
+          rawsBytes_seal (b.attrs.map BAttr.asRaw))) :
     SealedWith H c b' := by
   intro pre a post algo hsplit ha
   rw [hattrs, List.map_append, List.map_cons, List.map_nil] at hsplit
@@ -88,7 +88,7 @@ theorem sealedWith_snoc (H : Hashes) (c : Creds) (b b' : Builder) (x : BAttr)
   · subst hxa; rw [← hpre]; exact hx algo ha
   · exact hs pre a post' algo hl ha
 
-theorem asRaw_ty (a : BAttr) : a.asRaw.ty = a.ty := by cases a <;> rfl
+theorem asRaw_ty_seal (a : BAttr) : a.asRaw.ty = a.ty := by cases a <;> rfl
 
 theorem integrityTy_ending (algo : Algo) : isEnding (integrityTy algo) = true := by
   cases algo <;> decide
@@ -122,7 +122,7 @@ theorem reachWith_sealed (H : Hashes) (hH : HashesOk H) (c : Creds) (b : Builder
     have hbl := byteLen_snoc b { b with attrs := b.attrs ++ [a], types := b.types ++ [a.ty] } a rfl
     refine sealedWith_snoc H c b _ a rfl rfl rfl (ih (by omega)) ?_
     intro algo hty
-    rw [asRaw_ty] at hty
+    rw [asRaw_ty_seal] at hty
     have := addable_not_ending had
     rw [hty, integrityTy_ending] at this
     cases this
@@ -137,7 +137,7 @@ theorem reachWith_sealed (H : Hashes) (hH : HashesOk H) (c : Creds) (b : Builder
     have : algo = algo' := integrityTy_inj hty
     subst this
     simp only [BAttr.asRaw]
-    rw [← bytesWithExtraLen_eq b hok _ (by omega) bytes hbytes]
+    rw [← bytesWithExtraLen_eq_seal b hok _ (by omega) bytes hbytes]
   | fingerprint b b' hrb hf ih =>
     intro hs
     obtain ⟨_, bytes, _, rfl⟩ := addFingerprint_ok b b' hf
@@ -161,18 +161,18 @@ theorem reachWith_sealed (H : Hashes) (hH : HashesOk H) (c : Creds) (b : Builder
 
 /-! ### the verdict on the bytes of a sealed builder -/
 
-theorem rawsBytes_append (l l' : List RawAttr) : rawsBytes (l ++ l') = rawsBytes l ++ rawsBytes l' := by
-  unfold rawsBytes; rw [List.flatMap_append]
+theorem rawsBytes_append_seal (l l' : List RawAttr) : rawsBytes_seal (l ++ l') = rawsBytes_seal l ++ rawsBytes_seal l' := by
+  unfold rawsBytes_seal; rw [List.flatMap_append]
 
 theorem flat_enc_length (ts : List Tlv) (hwf : ∀ t ∈ ts, t.wf) :
-    (ts.flatMap Tlv.enc).length = (rawsBytes (ts.map Tlv.raw)).length := by
+    (ts.flatMap Tlv.enc).length = (rawsBytes_seal (ts.map Tlv.raw)).length := by
   induction ts with
   | nil => rfl
   | cons t ts ih =>
     obtain ⟨_, _, h3⟩ := hwf t (List.mem_cons_self ..)
     have e : t.enc.length = t.raw.toBytes.length := by
       rw [Tlv.enc_length, toBytes_eq, wireForm_length, h3]; unfold round4; simp only [Tlv.raw]; omega
-    unfold rawsBytes at ih ⊢
+    unfold rawsBytes_seal at ih ⊢
     rw [List.map_cons, List.flatMap_cons, List.flatMap_cons, List.length_append,
       List.length_append, e, ih (fun u hu => hwf u (List.mem_cons_of_mem _ hu))]
 
@@ -194,8 +194,8 @@ theorem sealed_first (H : Hashes) (hH : HashesOk H) (c : Creds) (b : Builder)
   have hwfpre : ∀ t ∈ pre, t.wf := fun t ht => hw.2.2.2.2.1 t (by rw [hsplit]; simp [ht])
   have hlen := flat_enc_length pre hwfpre
   obtain ⟨hbuild, _⟩ := build_eq_seal b hok
-  have htake : b.build.take o = sealHdr b.ty b.tid (b.byteLen - 20) ++ rawsBytes (pre.map Tlv.raw) := by
-    rw [hbuild, hmap, rawsBytes_append, ← List.append_assoc]
+  have htake : b.build.take o = sealHdr b.ty b.tid (b.byteLen - 20) ++ rawsBytes_seal (pre.map Tlv.raw) := by
+    rw [hbuild, hmap, rawsBytes_append_seal, ← List.append_assoc]
     exact List.take_left' (by rw [List.length_append, sealHdr_length, ho, hlen])
   refine hval.trans ?_
   congr 1
